@@ -102,10 +102,11 @@ static int child_main(int argc, char **argv)
 }
 
 /* ------------------------------------------------------------------ the parent */
-#define MAXP 4
+#define MAXP 8
 enum { B_EXIT0, B_TERM, B_KILLONLY, B_CMD };
 struct pr {
 	struct iv_popen_request *req;
+	int		owner;			/* loop that submitted the request */
 	int		type_r, beh, term_n;
 	long		nbytes;
 	int		fd;			/* returned descriptor */
@@ -129,16 +130,19 @@ struct pr {
 	int		close_mode;		/* 0 at once after submit, 1 after the start report, 2 after a delay, 3 after the child has gone */
 	char		sidebuf[128];
 	int		sidelen;
+	int64_t		stuck_since;
 };
 static struct pr prs[MAXP];
-static int nprs;
+static _Atomic int nprs;
+static pthread_mutex_t side_lock = PTHREAD_MUTEX_INITIALIZER;	/* the side-channel parser is entered by loop threads and by the quiescence decider */
+int __real_pthread_mutex_lock(pthread_mutex_t *);
+int __real_pthread_mutex_unlock(pthread_mutex_t *);
 static char exe_path[512];
-static struct loopthr *the_loop;
 static __thread struct pr *tl_submitting;
 
 static struct {
 	uint64_t cases, requests, type_r, type_w, closes_before_start, closes_running, closes_after_exit, terms_sent, kills_sent, acks, deaths,
-		 bytes_r, bytes_w, full_escalations, schedule_checks;
+		 bytes_r, bytes_w, full_escalations, schedule_checks, two_loop_cases, zombies_written_off, joint_exits;
 } S;
 
 static struct pr *pr_by_pid(int pid)
@@ -191,6 +195,20 @@ void hk_kill(pid_t pid, int sig, int ret, int err)
 	}
 	p->nkills++;
 	if (sig == SIGTERM) S.terms_sent++; else if (sig == SIGKILL) S.kills_sent++;
+	if (p->nkills >= 9 && !p->dead_reaped) {
+		/* five termination requests and one SIGKILL end any child; a ninth signal means the library keeps signalling a process that
+		 * ended long ago and that nobody reaps: that goes on for ever (the case ends here) */
+		siginfo_t si;
+		memset(&si, 0, sizeof(si));
+		if (waitid(P_PID, (id_t)pid, &si, WNOHANG | WNOWAIT | WEXITED) == 0 && si.si_pid == pid) {
+			mon_viol("C19", "zombie-signalled-for-ever", g_method,
+				 "signal number %d (%d) sent to pid %d, which ended (si_code %d) but was never reaped: request closed %lld virtual ns ago",
+				 p->nkills, sig, (int)pid, si.si_code, (long long)(vt_now() - p->t_close));
+			mon_printf("CASE id=%ld zombie=1 viol=%d\n", mon_case_id, mon_viol_case);
+			__real_kill(pid, SIGKILL);
+			_exit(3);
+		}
+	}
 	if (ret == 0 && !p->dead_reaped) {
 		/* the child will acknowledge it or die of it */
 		atomic_fetch_add(&p->outstanding, 1);
@@ -199,7 +217,7 @@ void hk_kill(pid_t pid, int sig, int ret, int err)
 }
 
 /* reads what the children reported; called while every thread is blocked and actors are pending, and from the loop */
-static void poll_side(struct pr *p)
+static void poll_side_locked(struct pr *p)
 {
 	char buf[64];
 	long n, i;
@@ -256,11 +274,61 @@ static void poll_side(struct pr *p)
 	}
 }
 
+static void poll_side(struct pr *p)
+{
+	__real_pthread_mutex_lock(&side_lock);
+	poll_side_locked(p);
+	__real_pthread_mutex_unlock(&side_lock);
+}
+
 void hk_ext_poll(void)
 {
 	int i;
+	if (pthread_mutex_trylock(&side_lock))
+		return;		/* a loop thread is at it (and therefore running) */
 	for (i = 0; i < nprs; i++)
-		poll_side(&prs[i]);
+		poll_side_locked(&prs[i]);
+	__real_pthread_mutex_unlock(&side_lock);
+}
+
+/*
+ * Every thread is blocked, every loop has confirmed an empty poll, and actions of children are still owed.  A child that is
+ * a zombie (peeked with WNOWAIT) while SIGCHLD is not pending will do nothing more, and the library has let its death pass:
+ * after 200 ms of that picture its actions are written off so that virtual time can move on (the 5 s signalling rounds) and
+ * the rules at the end of the case can speak ("child-survives-close", "zombie-left").
+ */
+void hk_ext_stuck(void)
+{
+	int i;
+	int64_t now = mt_real_ns();
+
+	for (i = 0; i < nprs; i++) {
+		struct pr *p = &prs[i];
+		siginfo_t si;
+		if (p->pid <= 0 || atomic_load(&p->outstanding) <= 0 || p->dead_reaped)
+			continue;
+		memset(&si, 0, sizeof(si));
+		if (waitid(P_PID, (id_t)p->pid, &si, WNOHANG | WNOWAIT | WEXITED) != 0 || si.si_pid != p->pid || mt_sigchld_pending()) {
+			p->stuck_since = 0;
+			continue;
+		}
+		if (p->stuck_since == 0) {
+			p->stuck_since = now;
+			continue;
+		}
+		if (now - p->stuck_since < 200000000LL)
+			continue;
+		p->stuck_since = 0;
+		S.zombies_written_off++;
+		mon_printf("NOTE child %d is a zombie, SIGCHLD is not pending and every thread is blocked: its outstanding actions are written off\n", (int)p->pid);
+		for (;;) {
+			int v = atomic_load(&p->outstanding);
+			if (v <= 0)
+				break;
+			if (atomic_compare_exchange_weak(&p->outstanding, &v, v - 1))
+				vt_ext_add(-1);
+		}
+	}
 }
 
 static void tell_exit_stim(void *v);
@@ -290,7 +358,7 @@ static void do_close(struct pr *p)
 		struct xarg *a = malloc(sizeof(*a));
 		static const int64_t when[] = { 0, 500000000LL, 2500000000LL, 7500000000LL, 12000000000LL, 22000000000LL, 40000000000LL };
 		a->i = (int)(p - prs);
-		vt_stim_at(vt_now() + when[rng_n(&the_loop->rng, 7)] + (int64_t)rng_n(&the_loop->rng, 1000000), tell_exit_stim, a);
+		vt_stim_at(vt_now() + when[rng_n(&loops[p->owner].rng, 7)] + (int64_t)rng_n(&loops[p->owner].rng, 1000000), tell_exit_stim, a);
 	}
 	/* a type w child sees end of file now and reports; a "cmd" child is told to go at some later (virtual) time by a stimulus */
 }
@@ -361,13 +429,33 @@ static void tell_exit_stim(void *v)
 	free(a);
 }
 
+/* two loops: children of both are told to go at the same instant (their deaths, SIGCHLDs and the release of the wait interests overlap) */
+static void joint_exit_stim(void *v)
+{
+	int i;
+	(void)v;
+	for (i = 0; i < nprs; i++) {
+		struct pr *p = &prs[i];
+		if (p->beh != B_CMD || p->pid <= 0 || p->dead_reaped || p->side[0] < 0)
+			continue;
+		atomic_fetch_add(&p->outstanding, 1);
+		vt_ext_add(1);
+		if (__real_write(p->side[0], "x", 1) != 1) {
+			atomic_fetch_sub(&p->outstanding, 1);
+			vt_ext_add(-1);
+		}
+	}
+	S.joint_exits++;
+}
+
 static void submit(struct loopthr *lt, struct pr *p)
 {
 	int fd, i;
 
 	memset(p, 0, sizeof(*p));
+	p->owner = lt->idx;
 	p->type_r = rng_pct(&lt->rng, 55);
-	p->beh = rng_n(&lt->rng, 4);
+	p->beh = (nloops > 1 && rng_pct(&lt->rng, 40)) ? B_CMD : (int)rng_n(&lt->rng, 4);
 	p->term_n = 1 + rng_n(&lt->rng, 5);
 	p->nbytes = rng_pct(&lt->rng, 30) ? 0 : 1 + rng_n(&lt->rng, 20000);
 	if (socketpair(AF_UNIX, SOCK_STREAM, 0, p->side) < 0)
@@ -438,20 +526,26 @@ static void submit(struct loopthr *lt, struct pr *p)
 static void scn_setup(struct loopthr *lt)
 {
 	int i;
-	the_loop = lt;
-	nprs = 1 + rng_n(&lt->rng, 3);
-	for (i = 0; i < nprs; i++)
+	int n = 1 + rng_n(&lt->rng, 3), first = atomic_fetch_add(&nprs, n);
+	for (i = first; i < first + n && i < MAXP; i++)
 		submit(lt, &prs[i]);
+	if (nloops > 1 && lt->idx == 0) {
+		static const int64_t when[] = { 1000000LL, 400000000LL, 2000000000LL, 6000000000LL, 31000000000LL };
+		int k, nj = 1 + rng_n(&lt->rng, 2);
+		for (k = 0; k < nj; k++)
+			vt_stim_at(vt_now() + when[rng_n(&lt->rng, 5)] + (int64_t)rng_n(&lt->rng, 3000000), joint_exit_stim, NULL);
+	}
 }
 
 static void scn_ctl(struct loopthr *lt, char cmd)
 {
 	int i;
-	(void)lt;
 	if (cmd != 'T')
 		return;
 	for (i = 0; i < nprs; i++) {
 		struct pr *p = &prs[i];
+		if (p->owner != lt->idx)
+			continue;
 		if (p->close_timer != NULL) {
 			iv_timer_unregister(p->close_timer);
 			free(p->close_timer);
@@ -468,7 +562,7 @@ static void scn_after_main(struct loopthr *lt)
 	if (!lt->torn)
 		mon_viol("C07", "main-returned-early", g_method, "iv_main returned before tear-down");
 	for (i = 0; i < nprs; i++)
-		if (prs[i].pid > 0 && !prs[i].dead_reaped)
+		if (prs[i].owner == lt->idx && prs[i].pid > 0 && !prs[i].dead_reaped)
 			mon_viol("C19", "main-returned-with-child", g_method, "iv_main returned although the child %d of a closed request has not been reaped", (int)prs[i].pid);
 }
 
@@ -543,7 +637,7 @@ static void wd_dump(void)
 static void run_case(long id, uint64_t seed)
 {
 	uint64_t cs;
-	int i, st, fds0 = count_fds();
+	int i, st, nl, fds0 = count_fds();
 
 	mon_case_id = id;
 	mon_viol_case = 0;
@@ -553,8 +647,16 @@ static void run_case(long id, uint64_t seed)
 	vt_reset_case(cs);
 	vt_set_single(0);
 	atomic_store(&ilv_hash, 0x19);
-	nprs = 0;
-	mt_start_loops(1, cs);
+	atomic_store(&nprs, 0);
+	memset(prs, 0, sizeof(prs));
+	{
+		struct rng r0;
+		rng_seed(&r0, cs, 4711);
+		nl = rng_pct(&r0, 40) ? 2 : 1;	/* two loops: whichever thread holds the first SIGCHLD interest reaps for both */
+	}
+	if (nl > 1)
+		S.two_loop_cases++;
+	mt_start_loops(nl, cs);
 	mt_join_loops();
 	for (i = 0; i < nprs; i++) {
 		struct pr *p = &prs[i];
@@ -605,11 +707,11 @@ int main(int argc, char **argv)
 		run_case(i, seed);
 	mon_printf("STAT method=%s cases=%llu requests=%llu type_r=%llu type_w=%llu closed_before_child_started=%llu closed_while_running=%llu closed_after_exit=%llu "
 		   "sigterm_sent=%llu sigkill_sent=%llu acks=%llu deaths_reaped=%llu full_escalations=%llu schedule_checks=%llu bytes_read=%llu bytes_written=%llu "
-		   "shim_quiescences=%llu time_advances=%llu violations=%d\n", g_method, (unsigned long long)S.cases, (unsigned long long)S.requests,
+		   "two_loop_cases=%llu joint_exit_stimuli=%llu zombies_written_off=%llu shim_quiescences=%llu time_advances=%llu violations=%d\n", g_method, (unsigned long long)S.cases, (unsigned long long)S.requests,
 		   (unsigned long long)S.type_r, (unsigned long long)S.type_w, (unsigned long long)S.closes_before_start, (unsigned long long)S.closes_running,
 		   (unsigned long long)S.closes_after_exit, (unsigned long long)S.terms_sent, (unsigned long long)S.kills_sent, (unsigned long long)S.acks,
 		   (unsigned long long)S.deaths, (unsigned long long)S.full_escalations, (unsigned long long)S.schedule_checks, (unsigned long long)S.bytes_r,
-		   (unsigned long long)S.bytes_w, (unsigned long long)vt_stats.quiescences, (unsigned long long)vt_stats.time_advances, mon_viol_total);
+		   (unsigned long long)S.bytes_w, (unsigned long long)S.two_loop_cases, (unsigned long long)S.joint_exits, (unsigned long long)S.zombies_written_off, (unsigned long long)vt_stats.quiescences, (unsigned long long)vt_stats.time_advances, mon_viol_total);
 	mon_printf("DONE\n");
 	return 0;
 }
